@@ -165,7 +165,7 @@ func (core *JApiCore) checkPathBody(d *directive.Directive) *jerr.JApiError {
 			// change the example in the catalog: work with a copy.
 			v = regex.New(k, core.rawUserTypes.GetValue(k).BodyCoords.Read())
 		}
-		return s.AddType(k, v)
+		return catalog.AddUserType(s, k, v)
 	})
 	if err == nil {
 		err = catalog.CheckShortcutKeys(s, core.userTypes)
